@@ -1,3 +1,10 @@
--- This module serves as the root of the `Qats` library.
--- Import modules here that should be built as part of the library.
-import Qats.Basic
+-- Root of the `Qats` library: every property module (and through them models, generated formulas and lemmas).
+import Qats.Props.C02
+import Qats.Props.C03
+import Qats.Props.C05
+import Qats.Props.C06
+import Qats.Props.C15
+import Qats.Props.C16
+import Qats.Props.C17
+import Qats.Props.C20
+import Qats.Driver
